@@ -44,6 +44,10 @@ def main():
         for sid in ids:
             d = os.path.join(ROOT, 'seeded', sid)
             meta = json.load(open(os.path.join(d, 'meta.json')))
+            if meta.get('status') == 'neutralised' and not args:
+                # the change no longer breaks the property on the repaired tree (its demo passes with the patch): nothing to catch
+                print(f"  seeded {sid}: neutralised by {meta.get('neutralised_by')} - skipped", flush=True)
+                continue
             r = sh(f'git -C /repo apply {d}/patch.diff')
             if r.returncode != 0:
                 results.append((sid, 'patch does not apply', r.stderr[-200:]))
